@@ -162,9 +162,24 @@ def check_complement(ctx, res: Result):
         lp = v.enclosing(r, (ast.For,))
         ok_loop = lp is not None and isinstance(lp.iter, ast.Call) and isinstance(lp.iter.func, ast.Attribute) and lp.iter.func.attr == "get_edges" and not lp.iter.args and not lp.iter.keywords and norm(lp.iter.func.value) == "hypergraph"
         res.check(ok_loop, "M-COMPLEMENT", f, norm(lp.iter) if lp is not None else norm(r), "over-all-edges", "the untouched hyperedges are not taken from all hyperedges of the input", loc(v.fi, r))
-        conds = [i.test for i in ifs if isinstance(i.test, ast.Compare) and len(i.test.ops) == 1]
-        good = [c for c in conds if isinstance(c.ops[0], ast.NotEq) and {v.kind(c.left), v.kind(c.comparators[0])} <= {SIZE} and "size" in (norm(c.left), norm(c.comparators[0]))]
-        res.check(bool(good), "M-COMPLEMENT", f, norm(conds[0]) if conds else norm(r), "negated-selection", "the re-added hyperedges are not exactly those that fail the selection `size == size` (some are lost or duplicated)", loc(v.fi, r))
+        # the re-add is control-dependent on `len(e) != size`: inside `if len(e) != size:` or after `if len(e) == size: continue`
+        rid = v.cfg_id(r)
+        tests = [i for i in (ast.walk(lp) if lp is not None else []) if isinstance(i, ast.If) and isinstance(i.test, ast.Compare) and len(i.test.ops) == 1 and {v.kind(i.test.left), v.kind(i.test.comparators[0])} <= {SIZE} and "size" in (norm(i.test.left), norm(i.test.comparators[0]))]
+        good, wrong = [], []
+        for i in tests:
+            op = i.test.ops[0]
+            tid = v.cfg.by_ast[id(i.test)]
+            for lab in ("T", "F"):
+                if v.cfg.branch_dominated(tid, lab, rid):
+                    means_ne = (isinstance(op, ast.NotEq) and lab == "T") or (isinstance(op, ast.Eq) and lab == "F")
+                    (good if means_ne else wrong).append(i)
+        any_if = [i for i in (ast.walk(lp) if lp is not None else []) if isinstance(i, ast.If)]
+        if good:
+            res.ok("M-COMPLEMENT", f, norm(good[0].test), "negated-selection", loc(v.fi, r))
+        elif wrong or not any_if:
+            res.violation("M-COMPLEMENT", f, norm(wrong[0].test) if wrong else norm(r), "negated-selection", "the re-added hyperedges are not exactly those that fail the selection `size == size` (some are lost or duplicated)", loc(v.fi, r))
+        else:
+            res.unknown("M-COMPLEMENT", f, norm(r), "negated-selection", "the condition under which hyperedges are re-added was not recognised", loc(v.fi, r))
         res.check(lp is not None and r.args and norm(r.args[0]) == norm(lp.target), "M-COMPLEMENT", f, norm(r), "same-edge", "a different hyperedge than the tested one is re-added", loc(v.fi, r))
 
 
